@@ -99,12 +99,7 @@ def stepLine (d : DSt) (line : String) : DSt × String :=
     | _, _ => (d, "bad-op")
   | ["reset", "mam", e, i] =>
     match bit e, bit i with
-    | some e, some i => (.mam (Mam.init e i false), "ok")
-    | _, _ => (d, "bad-op")
-  | ["reset", "mam", e, i, "fixed"] =>
-    -- the machine with fixes/C07-mam-empty-page.diff applied (harness: C07_MAM_FIXED=1)
-    match bit e, bit i with
-    | some e, some i => (.mam (Mam.init e i true), "ok")
+    | some e, some i => (.mam (Mam.init e i), "ok")
     | _, _ => (d, "bad-op")
   | _ =>
     match d with
